@@ -1,4 +1,6 @@
 import DriverLib.Json
 import DriverLib.Tensors
 import DriverLib.Ops
+import DriverLib.ShapeOps
+import DriverLib.Dispatch
 import DriverLib.Graph
